@@ -216,7 +216,7 @@ Proof. induction l as [|x r IH]; [reflexivity|]. cbn [map]. change (x :: r) with
 
 Lemma xstep_q vr c s o s' x l : xstep vr c s o = (s', x, l) -> goodl c (s_nx s) (s_nx s') (stored l).
 Proof.
-  unfold xstep. destruct o as [o|q sn|names|].
+  unfold xstep. destruct o as [o|q opts|names|].
   - destruct o.
     + destruct (valid_put k v t); [|intro H; inversion H; subst; apply goodl_nil; lia].
       destruct (fs_put c 0 (s_main s) (s_nx s) (tkey k) (tval v) (map app_tag t)) as [[[m nx] y] l1] eqn:HP.
@@ -243,7 +243,12 @@ Proof.
     + intro H; inversion H; subst. apply goodl_nil; cbn; lia.
   - destruct (is_nil q); [intro H; inversion H; subst; apply goodl_nil; lia|].
     destruct (fs_query c 0 (s_main s) (s_nx s) (split_colon (expr_toks q) [])) as [[nx y] l1] eqn:HP. apply fs_query_q in HP as [H1 H2].
-    intro H; inversion H; subst. rewrite add_sort_stored, H2. apply goodl_nil. assumption.
+    intro H; inversion H; subst. cbn [s_nx].
+    assert (HS : stored (match last_sort opts None with
+                         | Some n => if N.eqb n 0 then l1 else map (add_sort (sort_term vr c n)) l1
+                         | None => l1 end) = []).
+    { destruct (last_sort opts None) as [n|]; [destruct (N.eqb n 0)|]; rewrite ?add_sort_stored; assumption. }
+    rewrite HS. apply goodl_nil. assumption.
   - destruct (existsb colon_name names); [intro H; inversion H; subst; apply goodl_nil; lia|].
     destruct (format c (s_nx s) None None
                 (map (fun n => (tname n, lit_empty)) names ++ (if f_det c then [] else [(lit_keytag, lit_empty)])))
